@@ -8,7 +8,7 @@ for res in sorted(glob.glob(os.path.join(VERIF, ".work", "seed-results", "C*-m*.
     name = os.path.basename(res)[:-5]
     prop, m = name.split("-")
     src = "%s/out-%s/%s" % (os.environ.get("SEEDROOT", "/tmp/seed"), prop, m)
-    for root in ("/tmp/seed2", "/tmp/seed3", "/tmp/seed4", "/tmp/seed5", "/tmp/seed6", "/tmp/seed7"):
+    for root in ("/tmp/seed2", "/tmp/seed3", "/tmp/seed4", "/tmp/seed5", "/tmp/seed6", "/tmp/seed7", "/tmp/seed8"):
         if not os.path.isdir(src):
             src = "%s/out-%s/%s" % (root, prop, m)
     try:
